@@ -141,6 +141,20 @@ Section Snd.
   Lemma keeps_steady s s' : keeps s s' -> rate_steady s -> rate_steady s'.
   Proof. intros (a & _ & _). unfold rate_steady. now rewrite a. Qed.
 
+  (** [StaticSound::new] makes a sound whose rate is fixed and idle *)
+  Lemma update_n_keeps k : forall s s', update_n A azero fuel k s = Ok s' -> keeps s s'.
+  Proof.
+    induction k as [|k IH]; intros s s' H; cbn [update_n] in H.
+    - injection H as <-. apply keeps_refl.
+    - destruct (update_position A azero fuel s) as [s1| |] eqn:E1; cbn [obind] in H; try discriminate.
+      eapply keeps_trans; [eapply update_position_keeps; exact E1 | eapply IH; exact H].
+  Qed.
+  Theorem sound_new_steady d s : sound_new A azero fuel d = Ok s -> rate_steady s.
+  Proof.
+    unfold sound_new, sound_init. cbn [obind]. intros H. apply update_n_keeps in H.
+    destruct H as (R & _). unfold rate_steady. rewrite R. reflexivity.
+  Qed.
+
   (** ** [frame_step] over a list of increments *)
   Lemma frame_steps_app l1 : forall s l2,
     fsteps s (l1 ++ l2) =
